@@ -223,6 +223,14 @@ def atom(rng, profile="all") -> str:
         ql = ("'" + lit + "'") if "'" not in lit else ('"' + lit.replace('"', '\\x22') + '"')
         ql = ql.replace("\\", "\\\\") if "\\x22" not in ql else ql
         return f"platform_version {rng.choice(['==', '!='])} {ql}"
+    if r < 0.02:
+        # a NUL inside a literal (fixed defect D36: it was rendered raw, which nothing parses back)
+        return rng.choice(['platform_version == "a\\x00b"', 'platform_version != "\\0"', '"\\x00" in platform_version'])
+    if r < 0.03:
+        # a comparison whose operand is a specifier EXPRESSION, not a version (fixed defect D35: the specifier view spliced
+        # it into `op + operand` and the atom was merged through that): evaluated by the string fallback, never merged
+        return rng.choice(['python_version == "3.8,!=3.9"', 'python_full_version >= "3.8,<3.9"', 'python_version != "3.8||==3.9"',
+                           'python_full_version == "3.8.1,!=3.8.2"', 'platform_release != "5.10,!=6.1"', '"3.8,<3.9" == python_version'])
     if r < 0.38:
         name = rng.choice(list(STR_VARS))
         k = rng.random()
@@ -412,6 +420,9 @@ def g5_applies(texts) -> bool:
     for t in texts:
         if re.search(rf'({_STRV}) (<=|>=|<|>) "', t) or re.search(rf'" (<=|>=|<|>) ({_STRV})\b', t):
             return True
+        # the same fallback (`oper(lhs, rhs)` at the end of `_evaluate`) on a version variable whose operand is not a version
+        if re.search(r'(python_version|python_full_version|platform_release|implementation_version) (<=|>=|<|>) "[^"]*[,|][^"]*"', t):
+            return True
     return False
 
 
@@ -489,3 +500,20 @@ def ev(m, env):
         return m.evaluate(dict(env))
     except Exception as e:  # noqa: BLE001
         return "raise:" + type(e).__name__
+
+
+AWKWARD_LITS = ["a\\x00b", "\\0", "a\\ud800b", "x\\udfff", "tab\\there", "nl\\nx", "cr\\rx", "\\x7f", "\\x1b[0m", "\\u00e9",
+                "\\u2028", "\\x85", "q\\x22q", "q\\x27q", "both \\x27 and \\x22", "back\\\\slash", "end\\\\", "\\x00\\x22", "\\ud800\\x27\\x22"]
+
+
+def awkward_literal_texts():
+    """marker texts whose literals need care when rendered (fixed defects D27, D36): every literal is written with Python
+    escapes, which packaging evaluates; atoms, both operand orders, and the grouped forms `|` / `&` build on one variable"""
+    out = []
+    for lit in AWKWARD_LITS:
+        for var in ("os_name", "platform_version"):
+            out += [f'{var} == "{lit}"', f'{var} != "{lit}"', f'"{lit}" in {var}', f'"{lit}" == {var}',
+                    f'{var} == "{lit}" or {var} == "nt"', f'{var} != "{lit}" and {var} != "nt"',
+                    f'{var} == "{lit}" and sys_platform == "linux" or {var} == "nt"']
+        out.append(f'extra == "x{lit}"' if "\\" not in lit.replace("\\x00", "").replace("\\0", "") else f'extra != "y"')
+    return out
